@@ -269,6 +269,25 @@ def range_ties(ctx):
                 lambda kw=kw: dims.create_time_range(sy["start"], sy["stop"], **kw), model, "time", "range_dim")
     tie("ext_freq_kernel", lambda: dims.create_frequency_range(sy["start"], sy["stop"], sy["step"]),
         f"{A}freqKernel start stop step", "frequency", "range_dim")
+    # call forms (the order and the names of the parameters are API): everything positional in the documented
+    # order, everything by keyword
+    import numpy as np
+    tie("ext_range_kernel_pos", lambda: dims.create_range_dim("x", sy["start"], sy["stop"], sy["step"], sy["size"], np.float64),
+        f"{A}rangeKernel start stop (some step) (some size)", "x", "range_dim")
+    tie("ext_range_kernel_pos_size", lambda: dims.create_range_dim("x", sy["start"], sy["stop"], None, sy["size"]),
+        f"{A}rangeKernel start stop none (some size)", "x", "range_dim")
+    tie("ext_range_kernel_kw", lambda: dims.create_range_dim(size=sy["size"], stop=sy["stop"], start=sy["start"], name="x"),
+        f"{A}rangeKernel start stop none (some size)", "x", "range_dim")
+    tie("ext_time_kernel_pos", lambda: dims.create_time_range(sy["start"], sy["stop"], sy["step"], sy["sr"], "t2", np.float64),
+        f"{A}timeKernel start stop (some step) (some sr)", "t2", "range_dim")
+    tie("ext_time_kernel_pos_sr", lambda: dims.create_time_range(sy["start"], sy["stop"], None, sy["sr"]),
+        f"{A}timeKernel start stop none (some sr)", "time", "range_dim")
+    tie("ext_time_kernel_kw", lambda: dims.create_time_range(samplerate=sy["sr"], end_time=sy["stop"], start_time=sy["start"]),
+        f"{A}timeKernel start stop none (some sr)", "time", "range_dim")
+    tie("ext_freq_kernel_pos", lambda: dims.create_frequency_range(sy["start"], sy["stop"], sy["step"], "f2", np.float64),
+        f"{A}freqKernel start stop step", "f2", "range_dim")
+    tie("ext_freq_kernel_kw", lambda: dims.create_frequency_range(step=sy["step"], high_freq=sy["stop"], low_freq=sy["start"]),
+        f"{A}freqKernel start stop step", "frequency", "range_dim")
 
 
 # ------------------------------------------------------------------ get_coord_index / set_value_at_pos
@@ -403,6 +422,8 @@ class SData:
 class SArray:
     """an array with dimensions d0 … d(n-1), each an increasing axis with range (lo_k, hi_k)"""
     def __init__(self, n, sy, attrs=None):
+        self._made = (n, sy, attrs)
+        self.copy_of = None
         self.ndim = n
         self.dims = tuple(f"d{k}" for k in range(n))
         idx = {f"d{k}": SIndex(k, sy[f"lo{k}"], sy[f"hi{k}"], attrs) for k in range(n)}
@@ -432,6 +453,15 @@ class SArray:
     def get_index(self, key):
         return self.indexes[key]
 
+    def copy(self, deep=True, data=None):
+        """`array.copy()`: the same array as a new object holding what was written so far"""
+        if data is not None:
+            raise Untraceable("copy(data=...) of the array")
+        new = SArray(*self._made)
+        new.copy_of = self.copy_of or self
+        new.data.writes = list(self.data.writes)
+        return new
+
     def __len__(self):
         return _len_of(0)
 
@@ -447,6 +477,14 @@ def index_ties(ctx):
         sym_tie(ctx, name, lambda kw=kw: dims.get_coord_index(SArray(1, sy), "d0", sy["v"], **kw), V, ret,
                 f"{A}indexKernel lo0 hi0 v {_bool(raise_)}", lambda r: f".ok {_plan(r)}",
                 tactic=f"unfold {name}\n  se_c16", meta={"op": "coord_index"})
+    # call forms: everything positional in the documented order, everything by keyword
+    sym_tie(ctx, "ext_index_kernel_pos", lambda: dims.get_coord_index(SArray(1, sy), "d0", sy["v"], False), V, ret,
+            f"{A}indexKernel lo0 hi0 v false", lambda r: f".ok {_plan(r)}",
+            tactic="unfold ext_index_kernel_pos\n  se_c16", meta={"op": "coord_index"})
+    sym_tie(ctx, "ext_index_kernel_kw",
+            lambda: dims.get_coord_index(raise_error=False, value=sy["v"], dim="d0", arr=SArray(1, sy)), V, ret,
+            f"{A}indexKernel lo0 hi0 v false", lambda r: f".ok {_plan(r)}",
+            tactic="unfold ext_index_kernel_kw\n  se_c16", meta={"op": "coord_index"})
     # … on an axis as the range constructors build it (carries a `step` attribute; the range of the axis is
     # still that of its coordinates)
     Vs = V + ["step"]
@@ -457,6 +495,17 @@ def index_ties(ctx):
                 lambda kw=kw: dims.get_coord_index(SArray(1, sys_, {"step": sys_["step"]}), "d0", sys_["v"], **kw),
                 Vs, ret, f"{A}indexKernel lo0 hi0 v {_bool(raise_)}", lambda r: f".ok {_plan(r)}",
                 tactic=f"unfold {name}\n  se_c16", meta={"op": "coord_index_dim"})
+    # … and on an axis whose coordinate also carries `start` / `stop` attributes (what extend_dim / set_dim_attrs
+    # leave there, possibly stale): arbitrary numbers a0, a1 - the range of the lookup is that of the coordinates
+    Va = V + ["step", "a0", "a1"]
+    sya = {x: ZSym.var(x) for x in Va}
+    for tag, kw, raise_ in modes[:2]:
+        name = f"ext_index_kernel_rangeattrs_{tag}"
+        sym_tie(ctx, name,
+                lambda kw=kw: dims.get_coord_index(
+                    SArray(1, sya, {"step": sya["step"], "start": sya["a0"], "stop": sya["a1"]}), "d0", sya["v"], **kw),
+                Va, ret, f"{A}indexKernel lo0 hi0 v {_bool(raise_)}", lambda r: f".ok {_plan(r)}",
+                tactic=f"unfold {name}\n  se_c16", meta={"op": "coord_index_derived"})
     # the same lookup on every axis of a 2-D and a 3-D array: whatever the array is asked for (range, size,
     # slice bound) has to be that of the queried axis
     for n in (2, 3):
@@ -490,13 +539,17 @@ def set_ties(ctx, max_ndim=3):
         ranges = "[" + ", ".join(f"(lo{k}, hi{k})" for k in range(n)) + "]"
         ret = f"Except {A}AErr {A}IndexerPlan"
 
-        def thunk(query):
+        def thunk(query, kw=False):
             def run():
                 arr = SArray(n, sy)
-                out = ops.set_value_at_pos(arr, VALUE, **query)
-                if out is not arr:
-                    raise Untraceable("set_value_at_pos does not return the array it was given")
-                return arr.data.writes
+                out = ops.set_value_at_pos(array=arr, value=VALUE, **query) if kw else ops.set_value_at_pos(arr, VALUE, **query)
+                # the array returned carries the write: the array given (written in place, as the docstring says)
+                # or a copy of it; the array given holds the same write or none at all
+                if not isinstance(out, SArray) or (out is not arr and out.copy_of is not arr):
+                    raise Untraceable("set_value_at_pos returns neither the array it was given nor a copy of it")
+                if out is not arr and arr.data.writes and arr.data.writes != out.data.writes:
+                    raise Untraceable("the array given and the copy returned were written differently")
+                return out.data.writes
             return run
 
         def leaf(writes):
@@ -528,6 +581,11 @@ def set_ties(ctx, max_ndim=3):
             model = f"{A}setKernel {ranges} [" + ", ".join(f"({k}, q{k})" for k in perm) + "]"
             sym_tie(ctx, name, thunk(q), V, ret, model, leaf,
                     tactic=f"unfold {name}\n  se_c16", meta={"op": "set_value"})
+        # the array and the value by keyword
+        if n == 2:
+            name = "ext_set_kernel_2d_10_kw"
+            sym_tie(ctx, name, thunk({"d1": sy["q1"], "d0": sy["q0"]}, kw=True), V, ret,
+                    f"{A}setKernel {ranges} [(1, q1), (0, q0)]", leaf, tactic=f"unfold {name}\n  se_c16", meta={"op": "set_value"})
         # a dimension the array does not have
         name = f"ext_set_kernel_{n}d_unknown"
         sym_tie(ctx, name, thunk({"nope": sy["q0"]}), V, ret, f"{A}setKernel {ranges} [({n}, q0)]", leaf,
